@@ -111,6 +111,21 @@ func suiteMatchDoc(tier string, seed uint64, model string) *Report {
 			cases = append(cases, cs{[][]Frag{{{Kind: "R"}, {Kind: "c", Key: "a"}, flt}}, map[string]any{"a": arr, "b": int64(1)}, false})
 		}
 	}
+	// strings spelled like the literals (sen.Match / MatchLoad must keep them strings on the
+	// byte-at-a-time path as well)
+	for i := 0; i < n/40; i++ {
+		words := []any{"true", "false", "null", true, false, nil, "x", "1", int64(1)}
+		m := 2 + r.Intn(4)
+		arr := make([]any, m)
+		for j := range arr {
+			arr[j] = words[r.Intn(len(words))]
+		}
+		if r.Bool() {
+			cases = append(cases, cs{[][]Frag{{{Kind: "R"}, {Kind: "W"}}}, arr, false})
+		} else {
+			cases = append(cases, cs{[][]Frag{{{Kind: "R"}, {Kind: "c", Key: "a"}, {Kind: "n", N: r.Intn(m)}}}, map[string]any{"a": arr, "true": "null"}, false})
+		}
+	}
 	var reqs []string
 	for _, c := range cases {
 		tt := make([]string, len(c.targets))
@@ -162,6 +177,8 @@ func suiteMatchDoc(tier string, seed uint64, model string) *Report {
 					err = oj.MatchLoad(&chunkReader{data: []byte(text), chunks: chunks}, cb, xs...)
 				case "sen.Match":
 					err = sen.Match([]byte(text), cb, xs...)
+				case "sen.MatchLoad":
+					err = sen.MatchLoad(&chunkReader{data: []byte(text), chunks: chunks}, cb, xs...)
 				}
 				if err != nil {
 					return "E " + err.Error()
@@ -181,7 +198,7 @@ func suiteMatchDoc(tier string, seed uint64, model string) *Report {
 			name   string
 			chunks []int
 		}{{"oj.Match", nil}, {"oj.MatchString", nil}, {"oj.MatchLoad", []int{}}, {"oj.MatchLoad", ones},
-			{"oj.MatchLoad", []int{1 + r.Intn(len(text))}}, {"sen.Match", nil}}
+			{"oj.MatchLoad", []int{1 + r.Intn(len(text))}}, {"sen.Match", nil}, {"sen.MatchLoad", ones}, {"sen.MatchLoad", []int{1 + r.Intn(len(text))}}}
 		for _, v := range variants {
 			rep.Evaluations++
 			got := run(v.name, v.chunks)
@@ -227,6 +244,6 @@ func suiteMatchDoc(tier string, seed uint64, model string) *Report {
 		}
 	}
 	rep.Distinct = len(distinct)
-	rep.Rule = "seeded documents (written with sorted keys, tight and indented) x 1-2 seeded targets (child, non-negative index, wildcard, union, descent, trailing filter; 12% of the cases use slices and negative indexes = the recorded class); oj.Match, oj.MatchString, oj.MatchLoad (one piece, 1-byte reads, one random split) and sen.Match: the callback sequence (normalized path, value) must equal the extracted match_spec (outermost selected locations in document order); non-trivial = cases with at least one specified callback"
+	rep.Rule = "seeded documents (written with sorted keys, tight and indented) x 1-2 seeded targets (child, non-negative index, wildcard, union, descent, trailing filter; 12% of the cases use slices and negative indexes = the recorded class); oj.Match, oj.MatchString, oj.MatchLoad (one piece, 1-byte reads, one random split), sen.Match and sen.MatchLoad (1-byte reads, one random split); directed groups: arrays of 11-15 elements under trailing filters, strings spelled like the literals; the callback sequence (normalized path, value) must equal the extracted match_spec (outermost selected locations in document order); non-trivial = cases with at least one specified callback"
 	return rep
 }
